@@ -2,12 +2,15 @@
 package main
 
 import (
+	"encoding/json"
 	"flag"
 	"fmt"
 	"os"
+	"os/exec"
 	"path/filepath"
 	"runtime/debug"
 	"strconv"
+	"strings"
 
 	"gosqlxsa/core"
 	"gosqlxsa/rules"
@@ -63,7 +66,99 @@ func main() {
 			ctx := &rules.Ctx{P: p, R: r, Tier: *tier, SaDir: filepath.Join(*verif, "sa"), Controls: i == 0}
 			rules.Run(*prop, ctx)
 		}
+		if *tier == "thorough" {
+			replaySeeded(r, *prop, *repo, *verif)
+		}
 		return r.Finish()
 	}()
 	os.Exit(code)
+}
+
+// replaySeeded (thorough tier): every independently seeded breaking change of
+// /verif/seeded that names this property is applied to a scratch copy of the
+// tree and the quick analysis is run on the copy; a change recorded as
+// detectable that is no longer reported means the rule went blind and fails
+// the run. A patch that no longer applies (the tree was edited) is skipped.
+func replaySeeded(r *core.Report, prop, repo, verif string) {
+	dirs, _ := filepath.Glob(filepath.Join(verif, "seeded", "*", "meta.json"))
+	type rec struct {
+		ID       string   `json:"id"`
+		Applied  bool     `json:"applied"`
+		Detected bool     `json:"detected"`
+		Expected bool     `json:"expected_detected"`
+		Lines    []string `json:"report,omitempty"`
+	}
+	var recs []rec
+	self, _ := os.Executable()
+	for _, mf := range dirs {
+		b, err := os.ReadFile(mf)
+		if err != nil {
+			continue
+		}
+		var meta struct {
+			Property   string   `json:"property"`
+			DetectedBy []string `json:"detected_by"`
+		}
+		if json.Unmarshal(b, &meta) != nil {
+			continue
+		}
+		expected := false
+		for _, d := range meta.DetectedBy {
+			if d == prop {
+				expected = true
+			}
+		}
+		if meta.Property != prop && !expected {
+			continue
+		}
+		id := filepath.Base(filepath.Dir(mf))
+		scratch, err := os.MkdirTemp("", "gosqlx-sa-seed-")
+		if err != nil {
+			continue
+		}
+		rc := rec{ID: id, Expected: expected}
+		func() {
+			defer os.RemoveAll(scratch)
+			tree := filepath.Join(scratch, "repo")
+			if out, err := exec.Command("rsync", "-a", "--exclude", ".git", repo+"/", tree+"/").CombinedOutput(); err != nil {
+				rc.Lines = append(rc.Lines, "copy failed: "+string(out))
+				return
+			}
+			patch := filepath.Join(filepath.Dir(mf), "patch.diff")
+			cmd := exec.Command("patch", "-p1", "-s", "-f", "-i", patch)
+			cmd.Dir = tree
+			if out, err := cmd.CombinedOutput(); err != nil {
+				rc.Lines = append(rc.Lines, "patch does not apply to the current tree (skipped): "+firstLine(string(out)))
+				return
+			}
+			rc.Applied = true
+			evd := filepath.Join(scratch, "ev")
+			_ = os.MkdirAll(evd, 0o755)
+			run := exec.Command(self, "-prop", prop, "-tier", "quick", "-repo", tree, "-verif", verif, "-out", evd)
+			out, _ := run.CombinedOutput()
+			for _, l := range strings.Split(string(out), "\n") {
+				if strings.HasPrefix(l, "VIOLATED") || strings.HasPrefix(l, "UNDECIDED") || strings.HasPrefix(l, "ANALYSIS-FAILURE") {
+					rc.Detected = true
+					if len(rc.Lines) < 3 {
+						if len(l) > 300 {
+							l = l[:300]
+						}
+						rc.Lines = append(rc.Lines, l)
+					}
+				}
+			}
+		}()
+		recs = append(recs, rc)
+		if rc.Applied && rc.Expected && !rc.Detected {
+			r.Fatal("seeded change %s, which this check is recorded to detect, is no longer reported: the rule went blind", id)
+		}
+	}
+	r.Extra("seeded_replay", recs)
+}
+
+func firstLine(s string) string {
+	if i := strings.IndexByte(s, '\n'); i >= 0 {
+		return s[:i]
+	}
+	return s
 }
